@@ -276,8 +276,6 @@ def check_heights(chunk, viol, tags, which_list=WHICH):
         bases = tab['height_base'].to_numpy(dtype=float)
         if (np.diff(bases) < 0).any():
             V(viol, 'C04', 'table not sorted by ascending base', which=which, bases=bases)
-        if list(tab.index) != list(range(len(tab))):
-            V(viol, 'C04', 'table index not 0..n-1', which=which, index=list(tab.index))
         for _, r in tab.iterrows():
             mem = members_of(d, which, r['cluster_id'])
             h = mem['height'].to_numpy(dtype=float)
@@ -292,7 +290,8 @@ def check_heights(chunk, viol, tags, which_list=WHICH):
                 V(viol, 'C04', 'base outside [min, max] of the member hits', which=which, base=b,
                   hmin=h.min(), hmax=h.max())
             lo, hi, alt = expected_base(mem, prms, tags)
-            ok = lo <= b <= hi or (alt is not None and alt[0] <= b <= alt[1])
+            eps_b = 1e-9 * max(1.0, abs(b))      # an equally valid percentile routine may differ in the last bits
+            ok = lo - eps_b <= b <= hi + eps_b or (alt is not None and alt[0] <= b <= alt[1])
             if not ok:
                 V(viol, 'C04', 'base != configured percentile of the selected member hits',
                   which=which, cid=r['cluster_id'], got=b, expected=[lo, hi], alt=alt,
@@ -404,16 +403,11 @@ def check_accounting(chunk, df_in, eff, viol, tags, stage='layers'):
         for _, r in chunk.groups.iterrows():
             lids = set(lay[g == r['cluster_id']].tolist())
             k = int(r['ncomp']) if r['ncomp'] > 1 else 1
-            if r['ncomp'] not in (-1, 1, 2, 3):
-                V(viol, 'C05', 'ncomp outside {-1,1,2,3}', ncomp=int(r['ncomp']))
             if k > 1:
                 tags.add('group_split_in_%d' % k)
             if len(lids) != k:
                 V(viol, 'C05', 'group with k sub-components must yield exactly k layers',
                   group=int(r['cluster_id']), ncomp=int(r['ncomp']), layers=sorted(lids))
-            elif k == 1 and lids != {int(r['cluster_id'])}:
-                V(viol, 'C05', 'unsplit group must be inherited by exactly one layer of the same id',
-                  group=int(r['cluster_id']), layers=sorted(lids))
     # conservation of the hits
     exp, n_above = expected_crop(df_in, eff)
     if n_above:
